@@ -76,7 +76,8 @@ fn history_strategy(handlers: &[HandlerView], inst: &HandlerView, migrate: Optio
     let inst_op = (
         inst_args,
         proptest::option::of("[ -~]{0,12}"),
-        proptest::option::of(0u8..3),
+        // 0..2 = one of the senders, 3 = the empty string (the chain does not inspect an admin)
+        proptest::option::of(0u8..4),
         proptest::option::of(funds_strategy()),
         proptest::option::of(proptest::collection::vec(any::<u8>(), 1..8)),
         0u8..3,
@@ -137,7 +138,7 @@ pub fn run(p: &Prog, cfg: &Cfg, rep: &mut Report) {
                     if !pre.is_empty() {
                         tally.class("instantiate:setters-called-repeatedly");
                     }
-                    let opts = InstOpts { label: label.clone(), admin: admin.map(|a| senders[a as usize % senders.len()].clone()), funds: funds.as_ref().map(|f| coins_of(f)), salt: salt.clone(), pre_admin, pre_salt };
+                    let opts = InstOpts { label: label.clone(), admin: admin.map(|a| if a == 3 { String::new() } else { senders[a as usize % senders.len()].clone() }), funds: funds.as_ref().map(|f| coins_of(f)), salt: salt.clone(), pre_admin, pre_salt };
                     let n = label.is_some() as u8 + admin.is_some() as u8 + funds.is_some() as u8 + salt.is_some() as u8;
                     tally.class(&format!("instantiate:options={n}"));
                     if n >= 2 {
